@@ -457,3 +457,24 @@ Example ring_nonvacuous :
   let s := ring_run P 2 2 true scripts (repeat (0, 0) 5 ++ repeat (1, 0) 7 ++ repeat (0, 0) 5 ++ repeat (1, 0) 9 ++ repeat (0, 0) 12) in
   ring_usage 0 true scripts /\ r_dups s = 0 /\ map fst (r_out s) = [1; 0].
 Proof. split; [intros H; discriminate|]. vm_compute. split; reflexivity. Qed.
+
+(* visibility for the ring pool: the plain cursor (alloc_idx) and the plain store in_use = 1 are touched
+   only inside the allocation body (in_body), and at most one thread is inside the body in every reachable
+   state; with threadsafe_alloc the body is entered through the acquire test-and-set and left through the
+   release clear of write_spinlock while the lock is held.  Hence the accesses are mutually exclusive and
+   lock-ordered; that the next holder sees the previous holder's plain writes is C04's theorem
+   lock_previous_holder_writes_visible for the same spinlock code (composition, DESIGN.md 4.2).
+   in_use itself is atomic (relaxed) and carries no plain data. *)
+Corollary ring_cursor_exclusive_all P cap n locked a scripts sched :
+  ring_usage a locked scripts ->
+  let s := ring_run P cap n locked scripts sched in
+  (forall t u, in_body (r_pc (r_thr s t)) = true -> in_body (r_pc (r_thr s u)) = true -> t = u) /\
+  (r_locked s = true -> forall t, in_body (r_pc (r_thr s t)) = true -> r_lock s = true) /\
+  (r_locked s = false -> forall t, in_body (r_pc (r_thr s t)) = true -> t = a).
+Proof.
+  intros Hu s. pose proof (ring_invariants P cap n locked a scripts sched Hu) as I. fold s in I.
+  split; [apply (ri_body1 _ _ I)|]. split.
+  - intros L t Hb. destruct (r_lock s) eqn:E; [reflexivity|]. rewrite (ri_lock _ _ I L E t) in Hb. discriminate.
+  - intros L t Hb. destruct (Nat.eq_dec t a); [assumption|]. destruct (ri_unl _ _ I L t) as [_ U2].
+    destruct (U2 n0) as [_ U4]. congruence.
+Qed.
